@@ -272,7 +272,7 @@ def concurrent_cases(draw):
     if nthreads == 3:
         threads.append(draw(fin))
     return {'kind': 'conc', 'threads': threads, 'sched': draw(schedules(80)),
-            'lines': draw(st.lists(st.integers(0, 400), max_size=3))}
+            'lines': draw(st.lists(st.integers(0, 160), max_size=4))}
 
 
 def run_concurrent(case):
@@ -295,6 +295,9 @@ def run_concurrent(case):
         sched.step_hooks.append(watch)
         log = []
         state['log'] = log
+        for j, op in enumerate(case.get('prefix') or []):
+            r = real.apply(op, 90 + j)
+            log.append((-1, j, op, 90 + j, r))
 
         def runner(tix, ops):
             def run():
@@ -309,10 +312,12 @@ def run_concurrent(case):
         for tix, ops in enumerate(case['threads']):
             sched.spawn(runner(tix, ops), f'th{tix}')
 
-    lp = LinePreempter(sched, case.get('lines') or [])
+    lp = LinePreempter(sched, case.get('lines') or [],
+                       files=('futures.py',), count=case.get('count', False))
     with patched(sched):
         with lp:
             sched.run(main)
+    info['nlines'] = lp.n
     if sched.deadlock:
         return (('conc:deadlock', f'{sched.deadlock} case {case}'), info)
     if sched.errors:
@@ -330,6 +335,7 @@ def run_concurrent(case):
     per = {}
     for (tix, j, op, k, r) in log:
         per.setdefault(tix, []).append((op, k, r))
+    prefix_ops = per.pop(-1, [])
     seqs = [per[t] for t in sorted(per)]
     info['ops'] = sum(len(s) for s in seqs)
     info['terminal'] = sum(1 for s in seqs for (op, _, _) in s
@@ -337,6 +343,8 @@ def run_concurrent(case):
     found = False
     for order in _merges([len(s) for s in seqs]):
         m = Model()
+        for (op, k, r) in prefix_ops:
+            m.apply(op, k)
         pos = [0] * len(seqs)
         ok = True
         for t in order:
